@@ -26,7 +26,7 @@ fn main() {
                 loop {
                     let r = catch_unwind(AssertUnwindSafe(|| f(&mut s)));
                     match r {
-                        Ok(()) => cases += 1,
+                        Ok(()) => { cases += 1; if cases <= 3 { println!("ENUM-SAMPLE harness={} choice_vector={:?}", name, s.digits); } }
                         Err(e) => {
                             if e.downcast_ref::<vharness::src::Rejected>().is_some() { rejected += 1; }
                             else {
